@@ -18,9 +18,12 @@ TRUSTED = ["scipy.linalg.khatri_rao is modelled by the row product (Model/Matric
 EFFECTS = ["1", "x", "f", "x + f", "0 + f", "f:x", "z", "0 + x", "h", "center(x)", "x + z", "C(k)",
            "1 + x", "f:h", "0 + f + h", "f + h", "0 + f:x", "x:z", "S(f)", "T(f, 'b')", "scale(x)",
            "bs(x, df=4)", "0 + poly(z, 2)", "poly(x, 3, raw=True)", "bs(z, df=3):f", "0 + bs(x, df=3, degree=2)"]
-GROUPINGS = ["g", "h", "g:h", "C(k)", "g + h", "g/h", "cu", "co", "k", "co:h"]
+GROUPINGS = ["g", "h", "g:h", "C(k)", "g + h", "g/h", "cu", "co", "k", "co:h", "T(g, 'v')"]
+# grouping factors that ask for sum-to-zero coding (known finding D30), drawn now and then
+SUM_GROUPINGS = ["S(g)", "C(h, Sum)", "g:S(h)"]
 CORPUS = ["y ~ (f:h | g)", "y ~ (0 + f + h | g)", "y ~ (f | g + h) - (1 | h)", "y ~ (x | g:h)",
-          "y ~ (1 | g/h)", "y ~ (0 + f | g)", "y ~ (f + x | co)", "y ~ x + (x | k)"]
+          "y ~ (1 | g/h)", "y ~ (0 + f | g)", "y ~ (f + x | co)", "y ~ x + (x | k)",
+          "y ~ (1 | S(g))", "y ~ (x | C(h, Sum))", "y ~ (1 | T(g, 'v'))"]
 
 
 def rank(rows):
@@ -46,7 +49,7 @@ def rank(rows):
 
 def gen_case(r):
     eff = r.choice(EFFECTS)
-    grp = r.choice(GROUPINGS)
+    grp = r.choice(GROUPINGS) if r.random() < 0.92 else r.choice(SUM_GROUPINGS)
     used = set(eff.replace("(", " ").replace(")", " ").replace(":", " ").replace("+", " ").split())
     if used & set(grp.replace("(", " ").replace(")", " ").replace(":", " ").replace("/", " ")
                   .replace("+", " ").split()):
@@ -228,7 +231,11 @@ def explore(tier, seed, res=None, replay=None):
                                 "groups": terms[0]["groups"]})
     spec = ask(reqs_spec)
     model = ask(reqs_model)
+    open_ids = {k["id"] for k in known_findings("C05")}
     for (case, obs, terms), sp, mo in zip(owners, spec, model):
+        # the whole-design model where it applies (effects over modelled atoms); otherwise the
+        # model's prediction of the group names alone
+        model_differs = "err" not in mo and bool(designs.compare(obs, mo))
         if "err" in sp:
             res.count("spec_skip:" + sp["err"])
         else:
@@ -239,9 +246,19 @@ def explore(tier, seed, res=None, replay=None):
                 res.count("group_terms_judged")
                 bad = [k for k in ("groups_ok", "blocks_ok", "rows_in_one_group") if not v[k]]
                 if bad:
+                    # D30: known only inside the Lean class (a grouping component asks for Sum
+                    # coding) and only when the implementation's groups (and, where the effects
+                    # are modelled, its whole design) equal the model's, which mirrors the defect
+                    fid = None
+                    if (v.get("class_d30") and not model_differs and "KF-C05-D30" in open_ids
+                            and v.get("model_groups") == t["groups"]):
+                        fid = "KF-C05-D30"
+                        res.known_hit[fid] = res.known_hit.get(fid, 0) + 1
                     res.failures.append({"case": case, "impl": {"term": t["name"], "groups": t["groups"]},
-                                         "expected": "block structure", "finding": None,
+                                         "expected": "block structure", "finding": fid,
                                          "why": f"group-specific term {t['name']}: " + ", ".join(bad)})
+                elif v.get("class_d30"):
+                    res.count("inside-class-D30-but-holds")
         if "err" in mo:
             res.count("model_skip:" + mo["err"])
             continue
